@@ -3,5 +3,5 @@ CONSTANTS
   MaxStr = 2
   AsIsD10 = FALSE
   AsIsD12 = FALSE
-INVARIANTS RoundTrip EmitCase
+INVARIANTS RoundTrip VarsPrinted EmitCase
 CHECK_DEADLOCK FALSE
